@@ -237,6 +237,18 @@ PROPS["C05"] = {
     "level_note": "Trusts the Go runtime, testing/synctest, the instrumenter's rewrite and the relay model; scrypt runs at the repo's rpctest cost parameter.",
 }
 
+PROPS["C11"] = {
+    "pkgs": ["mailbox"],
+    "level": "exploration",
+    "quick_budget": 80, "thorough_budget": 2400,
+    "rule": "Each run drives one session through 2..5 rounds; a round waits until a connection has carried a complete transfer in both directions, then the tape picks the next event (close by client, by server, by both at the same instant, or a relay outage of 3..22 s that fails every stream operation) and its delay. The application behaves as gRPC does: Accept is re-entered immediately, Dial is sometimes called while a connection is open. Max handshake version 2 (pairing, rendezvous switch) in 4 of 5 runs, 1 otherwise. Oracles: at every Accept/Dial return the previous connection's Done() is closed; after each event a new connection completes a transfer within 4 virtual minutes; once both onRemoteStatic callbacks fired, later connections use equal, key-derived (not passphrase-derived) session ids with pairwise-crossed stream ids seen by the relay and the KK pattern; at the end a second client with a fresh key and only the passphrase must not complete a handshake." + SIG_RULE,
+    "assumptions": ["'a first pairing in which static keys were exchanged' = both onRemoteStatic callbacks fired; a half-pairing (initiator stored the key, responder never saw act 3) is counted by a probe, see DESIGN.md", "the relay model frees a box's reader when its context is cancelled"],
+    "components": STACK_COMPONENTS,
+    "expected_probes": ["c11.handout-after-previous-closed", "c11.reconnected-on-key-derived-rendezvous", "c11.early-dial"],
+    "level_text": EXPL_TEXT,
+    "level_note": "Trusts the Go runtime, testing/synctest, the instrumenter's rewrite and the relay model.",
+}
+
 # Properties that are pure functions of their input: no schedule, clock, fault
 # or interleaving enters them, so deterministic simulation has nothing to decide.
 NOT_APPLICABLE = {
